@@ -247,6 +247,102 @@ fn execute(ch: &mut Chooser, ctx: &WorkerCtx, ncallers: usize, with_close: bool)
     })
 }
 
+/// A long sequential history: call 0 is never answered in time; each of the next `n` calls is answered properly, but
+/// first the peer sends (again) the late reply of call 0, addressed to call 0's reply identifier. Every call must
+/// return its own answer, whatever the node does with identifiers of finished calls, and nothing may stay registered.
+fn straggler_exec(n: &usize, ctx: &WorkerCtx) -> ExecResult {
+    let n = *n;
+    run_rt(async move {
+        let mut res = ExecResult::default();
+        let mut nw = match node_world(ctx, flags_default()).await {
+            Ok(x) => x,
+            Err(e) => { res.violations.push(("could not establish the connection under a conforming peer".into(), json!({"error": e}))); return res; }
+        };
+        nw.w.gates.set_active(&[]);
+        let results: Arc<Mutex<Vec<(usize, CallResult)>>> = Arc::new(Mutex::new(vec![]));
+        let probe = { let r = results.clone(); move || r.lock().unwrap().len() as u64 };
+        let mut seen = 0usize;
+        let mut first_reply_to: Option<RefVal> = None;
+        for k in 0..=n {
+            let (node, results_t) = (nw.node.clone(), results.clone());
+            tokio::spawn(async move {
+                let r = node.rpc_call_raw_with_timeout(PEER_NAME, "m", "f", vec![OwnedTerm::Integer(k as i64)], Duration::from_secs(5)).await;
+                let cr = match r { Ok(v) => CallResult::Ok(format!("{:?}", v)), Err(edp_node::Error::RpcTimeout(_)) => CallResult::Timeout, Err(edp_node::Error::RpcCancelled) => CallResult::Cancelled, Err(e) => CallResult::Other(e.to_string()) };
+                results_t.lock().unwrap().push((k, cr));
+            });
+            nw.w.settle(&mut nw.peer, &probe).await;
+            // the request of call k as the peer sees it
+            let (frames, _) = nw.peer.dist_frames();
+            let mut to: Option<RefVal> = None;
+            for f in frames.iter().skip(seen) { if let Ok(m) = read_pass_through(f) { if let Some((from, kk)) = marker_of_request(&m) { if kk as usize == k { to = Some(from); } } } }
+            seen = frames.len();
+            let Some(to) = to else { res.violations.push(("request of a call never reached the peer".into(), json!({"call": k}))); return res; };
+            if k == 0 {
+                first_reply_to = Some(to);
+                tokio::time::advance(Duration::from_secs(6)).await; // call 0 times out unanswered
+            } else {
+                nw.peer.send(&reply_frame(first_reply_to.as_ref().unwrap(), 0)); // straggler for the finished call 0
+                nw.w.settle(&mut nw.peer, &probe).await;
+                nw.peer.send(&reply_frame(&to, k as i64));
+            }
+            nw.w.settle(&mut nw.peer, &probe).await;
+            let got = results.lock().unwrap().iter().find(|x| x.0 == k).map(|x| x.1.clone());
+            let want = if k == 0 { CallResult::Timeout } else { CallResult::Ok(format!("{:?}", expected_reply_term(k as i64))) };
+            if got.as_ref() != Some(&want) {
+                res.violations.push(("a call returned something other than the reply addressed to it".into(), json!({"call": k, "returned": format!("{:?}", got), "expected": format!("{:?}", want), "history": format!("call 0 timed out unanswered; its late reply was re-sent before the reply of each of the calls 1..{}", k)})));
+                return res;
+            }
+        }
+        let left = nw.node.pending_rpc_count();
+        if left != 0 { res.violations.push(("bookkeeping remains after every call has returned".into(), json!({"pending": left, "calls": n + 1}))); }
+        res.steps = n as u64 + 1;
+        res.outcome = format!("straggler {} calls", n + 1);
+        res
+    })
+}
+
+/// The peer stops reading while one caller's oversized request is being written (it holds the connection); a second
+/// caller with a short timeout queues behind it; time passes; the peer reads again but never answers. Both calls must
+/// return (timeout) and nothing may stay registered.
+fn stalled_rpc_exec(mib: &usize, ctx: &WorkerCtx) -> ExecResult {
+    let mib = *mib;
+    run_rt(async move {
+        let mut res = ExecResult::default();
+        let mut nw = match node_world(ctx, flags_default()).await {
+            Ok(x) => x,
+            Err(e) => { res.violations.push(("could not establish the connection under a conforming peer".into(), json!({"error": e}))); return res; }
+        };
+        nw.w.gates.set_active(&[]);
+        let results: Arc<Mutex<Vec<(usize, CallResult)>>> = Arc::new(Mutex::new(vec![]));
+        let probe = { let r = results.clone(); move || r.lock().unwrap().len() as u64 };
+        for (k, size, secs) in [(1usize, mib << 20, 30u64), (2, 16, 2)] {
+            let (node, results_t) = (nw.node.clone(), results.clone());
+            tokio::spawn(async move {
+                let r = node.rpc_call_raw_with_timeout(PEER_NAME, "m", "f", vec![OwnedTerm::Integer(k as i64), OwnedTerm::Binary(vec![k as u8; size])], Duration::from_secs(secs)).await;
+                let cr = match r { Ok(v) => CallResult::Ok(format!("{:?}", v)), Err(edp_node::Error::RpcTimeout(_)) => CallResult::Timeout, Err(edp_node::Error::RpcCancelled) => CallResult::Cancelled, Err(e) => CallResult::Other(e.to_string()) };
+                results_t.lock().unwrap().push((k, cr));
+            });
+            for _ in 0..300 { nw.w.yield_once().await; }
+        }
+        tokio::time::advance(Duration::from_secs(5)).await; // longer than caller 2's timeout, the peer still not reading
+        for _ in 0..300 { nw.w.yield_once().await; }
+        nw.w.settle(&mut nw.peer, &probe).await; // the peer drains everything, answers nothing
+        for _ in 0..6 {
+            tokio::time::advance(Duration::from_secs(31)).await;
+            nw.w.settle(&mut nw.peer, &probe).await;
+            if results.lock().unwrap().len() == 2 { break; }
+        }
+        let done = results.lock().unwrap().clone();
+        let detail = json!({"request_mib": mib, "returned": done.iter().map(|(k, r)| format!("call {}: {:?}", k, r)).collect::<Vec<_>>(), "pending_after": nw.node.pending_rpc_count()});
+        if done.len() != 2 { res.violations.push(("a call never returned although the peer resumed reading and its timeout passed".into(), detail.clone())); }
+        if done.iter().any(|(_, r)| matches!(r, CallResult::Ok(_))) { res.violations.push(("a call returned a reply although the peer sent none".into(), detail.clone())); }
+        if done.len() == 2 && nw.node.pending_rpc_count() != 0 { res.violations.push(("bookkeeping remains after every call has returned".into(), detail.clone())); }
+        res.steps = 2;
+        res.outcome = format!("stalled rpc {:?}", done);
+        res
+    })
+}
+
 pub fn run(rep: &Report) -> Value {
     let thorough = rep.thorough();
     let mut all: Vec<(String, Stats)> = vec![];
@@ -257,8 +353,12 @@ pub fn run(rep: &Report) -> Value {
         let st = explore(rep, &name, bound, cap, |ch, ctx| execute(ch, ctx, ncallers, with_close));
         all.push((name, st));
     }
-    let states: u64 = all.iter().map(|(_, s)| s.executions).sum();
-    let transitions: u64 = all.iter().map(|(_, s)| s.transitions).sum();
+    let lens: Vec<usize> = if thorough { vec![70, 300] } else { vec![70] };
+    let st_s = crate::explore::for_all(rep, "late reply of a finished call re-sent before each later reply", &lens, |n, ctx| straggler_exec(n, ctx));
+    let sizes = vec![24usize];
+    let st_st = crate::explore::for_all(rep, "peer stops reading under an oversized request, second caller queued behind it", &sizes, |n, ctx| stalled_rpc_exec(n, ctx));
+    let states: u64 = all.iter().map(|(_, s)| s.executions).sum::<u64>() + st_s.executions + st_st.executions;
+    let transitions: u64 = all.iter().map(|(_, s)| s.transitions).sum::<u64>() + st_s.transitions;
     let mut samples: Vec<Value> = vec![];
     for (_, s) in &all { samples.extend(s.samples.iter().take(2).cloned()); }
     json!({
@@ -269,6 +369,6 @@ pub fn run(rep: &Report) -> Value {
         "exhaustive": all.iter().all(|(_, s)| s.exhaustive),
         "scenarios": all.iter().map(|(n, s)| json!({"scenario": n, "executions": s.executions, "deviation_bound_completed": s.bound_completed, "distinct_outcomes": s.distinct_outcomes, "outcomes": s.outcomes, "max_decision_points": s.max_points, "unstable_failures_not_reported": s.unstable, "replay_divergences": s.diverged})).collect::<Vec<_>>(),
         "distinct_outcomes": all.iter().map(|(_, s)| s.distinct_outcomes).sum::<usize>(),
-        "rule": "stateless exploration of the real Node/Connection code on a single-threaded tokio runtime with a controller-owned clock, a scripted peer on loopback and gate hooks: at every decision point the enabled set = parked gates (rpc table steps, completed frame writes, route miss) + environment events (reply k, duplicated reply, reply to an unknown pid, reply to the caller's pid under another creation, timer k, peer close), two callers made runnable in the same tick, and per-caller cooperative-budget preemption (0..9 units left); all executions with at most `bound` non-default choices; states = complete executions",
+        "rule": "stateless exploration of the real Node/Connection code on a single-threaded tokio runtime with a controller-owned clock, a scripted peer on loopback and gate hooks: at every decision point the enabled set = parked gates (rpc table steps, completed frame writes, route miss) + environment events (reply k, duplicated reply, reply to an unknown pid, reply to the caller's pid under another creation, timer k, peer close), two callers made runnable in the same tick, and per-caller cooperative-budget preemption (0..9 units left); all executions with at most `bound` non-default choices; states = complete executions; plus one (thorough: two) sequential history of 71 (301) calls in which the first call times out and its late reply is re-sent before the reply of every later call, and one history in which the peer stops reading under a 24 MiB request while a second caller with a 2 s timeout waits for the connection",
     })
 }
